@@ -440,6 +440,11 @@ def make_case(ctx, cid):
         c = u.case(cid, "bytes" if cid % 4 == 3 else "all")
         case = {"cid": cid, "cls": "fs", "base": c.image, "files": {"img": list(c.patches)}, "truncate": {},
                 "descr": [tuple(d) for d in c.descr]}
+        if cid % 8 == 1:
+            # a geometry-bearing superblock field on top, with a valid superblock checksum
+            pp, d = c06gen.sb_geom_op(run.rng_for(0, TAG, "sbgeom", cid), u.paths[c.image])
+            case["files"]["img"] = pp + case["files"]["img"] if cid % 16 == 1 else pp
+            case["descr"] = [d] + (case["descr"] if cid % 16 == 1 else [])
         if cid % 41 == 7:
             inf = u.info(c.image)
             rng = run.rng_for(0, TAG, "trunc", cid)
@@ -682,6 +687,10 @@ def main(tier, seed, replay=None, scale=1.0):
                             return "C06 %s hang in %s" % (p["bin"], vv["hang_func"])
                         return "C06 %s hang %s" % (p["bin"], _image_class(r))
                     hkey = hang_key(v)
+                    if rep.match_known(hkey) is not None:
+                        # a listed hang signature is not confirmed again (300 s each)
+                        rep.violation(hkey, "watchdog expiry with a listed signature", replay={"cid": r["cid"]})
+                        continue
                     if hkey in confirmed_hangs:
                         seen_keys[hkey] = seen_keys.get(hkey, 0) + 1
                         rep.count("watchdog_expiries_of_confirmed_hang_signature")
